@@ -138,3 +138,46 @@ Theorem C15_start_is_zero_config : forall basis sz,
   Symmetry.new_pos basis sz = TpsCfg.from_squares_cfg basis sz 0%N 0%N false (repeat (repeat nil (N.to_nat sz)) (N.to_nat sz)) 0%Z.
 Proof. exact SymmetryCfg.new_pos_zero. Qed.
 Print Assumptions C15_start_is_zero_config.
+
+(* NO-COLLISION AS A STATEMENT ABOUT Position.Hash AND Position.Equal ONLY (worker prove3-cong, CanonGame.v).
+   nocoll_trace above asks that a board whose hash equals board 0's SHOWS the same position (squares, reserves, ply counter, tie flag).
+   The eight boards Canonical keeps are replays from tak.New(Config{Size}) (C15_start_is_zero_config) of the same number of moves - whatever
+   the hash comparisons did - hence positions of one game (PnCong3.cinv; sizes 3..6: at most 64 pieces) with the same ply counter, and inside
+   one game Position.Equal (bit boards, heights, stacks, size, side to move; neither reserves nor ply) identifies only records that differ in
+   the ply counter (C06_equal_congruent's PnCong3.cinv_equal_sim).  So the only hash hypothesis left is
+     nocoll_pe_trace sz ms: in every state the loop reaches before a move, a board whose Position.Hash equals board 0's is Position.Equal to it. *)
+Require CanonGame.
+
+Theorem C15_nocoll_from_equal : forall sz, (3 <= sz <= 6)%N -> forall ms, CanonGame.nocoll_pe_trace sz ms -> nocoll_trace sz ms.
+Proof. exact CanonGame.nocoll_pe_nocoll. Qed.
+Print Assumptions C15_nocoll_from_equal.
+
+Theorem C15_canonical_legal_images_game : forall sz, (3 <= sz <= 6)%N -> forall ms cs,
+  Forall canon_input ms -> CanonGame.nocoll_pe_trace sz ms -> canonical gen_basis sz ms = Ok cs ->
+  length cs = length ms /\
+  forall k, k <= length ms ->
+    exists j A B, j < 8 /\ play (P0 sz) (map raw (firstn k cs)) = Some A /\ play (P0 sz) (map raw (firstn k ms)) = Some B /\ A = img j B.
+Proof. exact CanonGame.canonical_legal_images_game. Qed.
+Print Assumptions C15_canonical_legal_images_game.
+
+Theorem C15_canonical_class_invariant_game : forall sz, (3 <= sz <= 6)%N -> forall g ms cs, g < 8 ->
+  Forall canon_input ms -> CanonGame.nocoll_pe_trace sz ms -> canonical gen_basis sz ms = Ok cs ->
+  canonical gen_basis sz (map (tmr g (N.to_nat sz)) ms) = Ok cs.
+Proof. exact CanonGame.canonical_class_invariant_game. Qed.
+Print Assumptions C15_canonical_class_invariant_game.
+
+Theorem C15_canonical_idempotent_game : forall sz, (3 <= sz <= 6)%N -> forall ms cs,
+  Forall canon_input ms -> CanonGame.nocoll_pe_trace sz ms -> canonical gen_basis sz ms = Ok cs ->
+  canonical gen_basis sz cs = Ok cs.
+Proof. exact CanonGame.canonical_idempotent_game. Qed.
+Print Assumptions C15_canonical_idempotent_game.
+
+Theorem C15_canonical_total_game : forall sz, (3 <= sz <= 6)%N -> forall ms B,
+  CanonGame.nocoll_pe_trace sz ms -> play (P0 sz) (map raw ms) = Some B -> exists cs, canonical gen_basis sz ms = Ok cs.
+Proof. exact CanonGame.canonical_total_game. Qed.
+Print Assumptions C15_canonical_total_game.
+
+(* non-vacuity: the 5x5 example game satisfies the syntactic hypothesis (evaluated inside Coq) *)
+Theorem C15_example_nocoll_pe : CanonGame.nocoll_pe_trace 5 ex_ms.
+Proof. exact CanonGame.ex_nocoll_pe. Qed.
+Print Assumptions C15_example_nocoll_pe.
